@@ -473,6 +473,8 @@ var ruleK3 = &Rule{
 			st := OK
 			if !ok {
 				st = Violation
+			} else {
+				msg = ""
 			}
 			obls = append(obls, Obl{Key: name + " " + k, Pos: c.pos(pos), Status: st, Msg: msg})
 		}
